@@ -36,6 +36,10 @@ theorem san_roundtrip_list (p : Pos) (L : List Mv) (hL : ∀ m, m ∈ L ↔ lega
     stringToMoveL L p (moveToStringL L p m long) = some m :=
   roundtrip_L p L m long ⟨hL, hnd⟩ hm
 
+/-- the hypotheses of `san_roundtrip_list` are satisfiable: the specification's own list -/
+example (p : Pos) : (∀ m, m ∈ genLegal p ↔ legalB p m = true) ∧ (genLegal p).Nodup :=
+  ⟨(genLegal_legalList p).mem, (genLegal_legalList p).nodup⟩
+
 /-- **No two legal moves share a text form** (short or long). -/
 theorem san_injective (p : Pos) (m₁ m₂ : Mv) (h₁ : legalB p m₁ = true) (h₂ : legalB p m₂ = true) (long : Bool)
     (h : moveToString p m₁ long = moveToString p m₂ long) : m₁ = m₂ := by
@@ -109,6 +113,9 @@ theorem huge_clock_witness : counterOfWordOld "2147483647".toList 0 + 1 > 214748
 /-- **the repaired reader**: both counters of every accepted FEN are in `0 … 65535` -/
 theorem readFEN_counters_in_range (s : String) (r : RawPos) (h : readFENRaw s = .ok r) :
     0 ≤ r.hmc ∧ r.hmc ≤ 65535 ∧ 0 ≤ r.fmc ∧ r.fmc ≤ 65535 := readFENRaw_counters s r h
+
+/-- the hypothesis is satisfiable: the initial position is accepted -/
+example : (readFENRaw startFEN).toOption.isSome = true := by decide +kernel
 
 /-- hence the table index used by `bookHash` and `historyHash` is within `moveCntKeys[0 … 100]` for the position read,
     and stays so (and below `INT_MAX`) after any `k ≤ 2·10⁹` further increments of the clock -/
